@@ -97,3 +97,149 @@ def regenerate(repo, coq_dir):
 if __name__ == "__main__":
     import sys
     print(regenerate(sys.argv[1] if len(sys.argv) > 1 else "/repo", pathlib.Path(__file__).resolve().parents[2] / "coq"))
+
+
+# ------------------------------------------------------------------------------------------------------------------
+# Second unit: the bound comparisons of constraints/version/version_range_constraint.py (typed subset with Optional
+# narrowing).  Values: 'rng' (self/other), 'optv' (Version | None), 'v' (Version), 'bool'.
+ATTRS = {"min": ("(rmin {o})", "optv"), "max": ("(rmax {o})", "optv"), "include_min": ("(imin {o})", "bool"), "include_max": ("(imax {o})", "bool"),
+         "allowed_min": ("(allowed_min_gen {o})", "optv"), "allowed_max": ("(allowed_max_gen {o})", "optv")}
+V_METHODS = {"is_unstable": ("is_unstable {x}", "bool"), "first_devrelease": ("first_devrelease {x}", "v"),
+             "is_prerelease": ("is_prerelease {x}", "bool"), "is_postrelease": ("is_postrelease {x}", "bool"), "is_local": ("is_local {x}", "bool")}
+R_METHODS = {"is_strictly_lower": "is_strictly_lower_gen", "allows_lower": "allows_lower_gen", "allows_higher": "allows_higher_gen"}
+
+def tkey(e):
+    return ast.unparse(e)
+def texpr(e, env):
+    """-> (gallina, type).  env: source text of an expression -> (gallina, type) (locals and narrowed attributes)."""
+    k = tkey(e)
+    if k in env: return env[k]
+    if isinstance(e, ast.Constant):
+        if e.value is None: return "None", "optv"
+        if e.value is True: return "true", "bool"
+        if e.value is False: return "false", "bool"
+    if isinstance(e, ast.Name): raise Untranslatable(f"unknown name {e.id}")
+    if isinstance(e, ast.Attribute) and isinstance(e.value, ast.Name) and e.value.id in ("self", "other") and e.attr in ATTRS:
+        g, t = ATTRS[e.attr]; return g.format(o=e.value.id), t
+    if isinstance(e, ast.Attribute) and e.attr == "_max" and isinstance(e.value, ast.Name) and e.value.id in ("self", "other"):
+        return f"(rmax {e.value.id})", "optv"
+    if isinstance(e, ast.Call) and isinstance(e.func, ast.Attribute) and not e.keywords:
+        recv, ty = texpr(e.func.value, env)
+        if ty == "v" and e.func.attr in V_METHODS and not e.args:
+            g, t = V_METHODS[e.func.attr]; return "(" + g.format(x=recv) + ")", t
+        if ty == "rng" and e.func.attr in R_METHODS and len(e.args) == 1:
+            a, ta = texpr(e.args[0], env)
+            if ta == "rng": return f"({R_METHODS[e.func.attr]} {recv} {a})", "bool"
+        raise Untranslatable("call " + k)
+    if isinstance(e, ast.UnaryOp) and isinstance(e.op, ast.Not):
+        a, t = texpr(e.operand, env)
+        if t == "bool": return f"(negb {a})", "bool"
+    if isinstance(e, ast.BoolOp):
+        parts = [texpr(x, env) for x in e.values]
+        if all(t == "bool" for _, t in parts):
+            op = " && " if isinstance(e.op, ast.And) else " || "
+            return "(" + op.join(g for g, _ in parts) + ")", "bool"
+    if isinstance(e, ast.Compare) and len(e.ops) == 1:
+        a, ta = texpr(e.left, env); b, tb = texpr(e.comparators[0], env); op = e.ops[0]
+        if isinstance(op, (ast.Is, ast.IsNot)) and tb == "optv" and b == "None" and ta == "optv":
+            return (f"(negb (is_some {a}))" if isinstance(op, ast.Is) else f"(is_some {a})"), "bool"
+        if isinstance(op, (ast.Lt, ast.Gt)) and ta == tb == "v":
+            return f"({'vltb' if isinstance(op, ast.Lt) else 'vgtb'} {a} {b})", "bool"
+        if isinstance(op, (ast.Eq, ast.NotEq)) and ta in ("v", "optv") and tb in ("v", "optv"):
+            a2 = a if ta == "optv" else f"(Some {a})"; b2 = b if tb == "optv" else f"(Some {b})"
+            g = f"(oveq {a2} {b2})"
+            return (g if isinstance(op, ast.Eq) else f"(negb {g})"), "bool"
+    if isinstance(e, ast.Name) and e.id in ("self", "other"): return e.id, "rng"
+    raise Untranslatable("expression " + k)
+
+def none_tests(test):
+    """[expr, ...] when test is 'X is None' or 'X is None or Y is None ...', else None"""
+    def one(t):
+        return t.left if (isinstance(t, ast.Compare) and len(t.ops) == 1 and isinstance(t.ops[0], ast.Is)
+                          and isinstance(t.comparators[0], ast.Constant) and t.comparators[0].value is None) else None
+    if one(test) is not None: return [one(test)]
+    if isinstance(test, ast.BoolOp) and isinstance(test.op, ast.Or) and all(one(v) is not None for v in test.values):
+        return [one(v) for v in test.values]
+    return None
+
+def ret(e, env, rty):
+    g, t = texpr(e, env)
+    if t == rty: return g
+    if rty == "optv" and t == "v": return f"(Some {g})"
+    raise Untranslatable(f"return of type {t} in a function returning {rty}")
+
+def tblock(stmts, env, rty, fresh):
+    if not stmts: raise Untranslatable("falls off the end")
+    s, rest = stmts[0], stmts[1:]
+    if isinstance(s, ast.Expr) and isinstance(s.value, ast.Constant) and isinstance(s.value.value, str):
+        return tblock(rest, env, rty, fresh)
+    if isinstance(s, ast.Return) and s.value is not None:
+        return ret(s.value, env, rty)
+    if isinstance(s, ast.Assign) and len(s.targets) == 1:
+        tg = s.targets[0]
+        if isinstance(tg, ast.Tuple) and isinstance(s.value, ast.Tuple) and len(tg.elts) == len(s.value.elts) and all(isinstance(x, ast.Name) for x in tg.elts):
+            vals = [texpr(v, env) for v in s.value.elts]; e2 = dict(env); out = ""
+            for n, (g, t) in zip(tg.elts, vals):
+                out += f"let {n.id} := {g} in "; e2[n.id] = (n.id, t)
+            return out + tblock(rest, e2, rty, fresh)
+        if isinstance(tg, ast.Name):
+            g, t = texpr(s.value, env); e2 = dict(env); e2[tg.id] = (tg.id, t)
+            return f"let {tg.id} := {g} in " + tblock(rest, e2, rty, fresh)
+    if isinstance(s, ast.If) and not s.orelse and len(s.body) == 1 and isinstance(s.body[0], ast.Return) and s.body[0].value is not None:
+        nt = none_tests(s.test)
+        if nt is not None:
+            # if X is None [or Y is None]: return E   ==>   match X with None => E | Some x => ... end  (X is a Version afterwards)
+            early = ret(s.body[0].value, env, rty)
+            def nest(items, env):
+                if not items: return tblock(rest, env, rty, fresh)
+                x = items[0]; g, t = texpr(x, env)
+                if t != "optv": raise Untranslatable("None test on a non-optional " + tkey(x))
+                fresh[0] += 1; nm = f"v{fresh[0]}"
+                e2 = dict(env); e2[tkey(x)] = (nm, "v")
+                return f"match {g} with None => {early} | Some {nm} => {nest(items[1:], e2)} end"
+            return nest(nt, env)
+        c, t = texpr(s.test, env)
+        if t != "bool": raise Untranslatable("condition " + tkey(s.test))
+        return f"if {c} then {ret(s.body[0].value, env, rty)} else {tblock(rest, env, rty, fresh)}"
+    raise Untranslatable(ast.dump(s)[:200])
+
+RANGE_UNITS = [("allowed_min", "allowed_min_gen", "optv", False), ("allowed_max", "allowed_max_gen", "optv", False),
+               ("is_strictly_lower", "is_strictly_lower_gen", "bool", True), ("allows_lower", "allows_lower_gen", "bool", True),
+               ("allows_higher", "allows_higher_gen", "bool", True), ("is_strictly_higher", "is_strictly_higher_gen", "bool", True),
+               ("is_adjacent_to", "is_adjacent_to_gen", "bool", True)]
+RANGE_FALLBACK = {"allowed_min_gen": "fun self => rmin self", "allowed_max_gen": "allowed_max", "is_strictly_lower_gen": "is_strictly_lower",
+                  "allows_lower_gen": "allows_lower", "allows_higher_gen": "allows_higher", "is_strictly_higher_gen": "is_strictly_higher",
+                  "is_adjacent_to_gen": "is_adjacent_to"}
+def regenerate_range_cmp(repo, coq_dir):
+    """Writes coq/Gen/RangeCmp.v from version_range_constraint.py; returns {unit: (status, detail)}."""
+    out = pathlib.Path(coq_dir) / "Gen" / "RangeCmp.v"
+    src = pathlib.Path(repo) / "src/poetry/core/constraints/version/version_range_constraint.py"
+    header = ("(* GENERATED on every run from /repo by harness/translate/py2coq.py - do not edit *)\nFrom Coq Require Import Bool.\n"
+              "From PC Require Import Model.Pep440 Model.VConstraint.\n")
+    status = {}
+    try:
+        tree = ast.parse(src.read_text())
+        cls = next(n for n in tree.body if isinstance(n, ast.ClassDef) and n.name == "VersionRangeConstraint")
+        funcs = {n.name: n for n in cls.body if isinstance(n, ast.FunctionDef)}
+    except Exception as e:  # noqa
+        funcs = {}; status["*"] = ("untranslatable", f"cannot read the class: {e}")
+    text = header
+    for py, coq, rty, binary in RANGE_UNITS:
+        try:
+            if py not in funcs: raise Untranslatable(f"method {py} not found")
+            node = funcs[py]
+            want = ["self", "other"] if binary else ["self"]
+            if [a.arg for a in node.args.args] != want or node.args.vararg or node.args.kwarg or node.args.kwonlyargs or node.args.defaults:
+                raise Untranslatable("signature of " + py)
+            env = {"self": ("self", "rng"), "other": ("other", "rng")} if binary else {"self": ("self", "rng")}
+            body = tblock(node.body, env, rty, [0])
+            params = "(self other : rng)" if binary else "(self : rng)"
+            text += f"Definition {coq} {params} : {'bool' if rty == 'bool' else 'option version'} :=\n  {body}.\n"
+            status[py] = ("ok", "")
+        except Untranslatable as e:
+            text += (f"(* {py}: source no longer fits the translated subset: " + str(e).replace("*)", "* )").replace("(*", "( *")[:300] + " *)\n"
+                     f"Definition {coq} := {RANGE_FALLBACK[coq]}.\n")
+            status[py] = ("untranslatable", str(e))
+    if not out.exists() or out.read_text() != text:
+        out.write_text(text)
+    return status
